@@ -20,6 +20,12 @@ if hasattr(mod, "setup_worker"):
     mod.setup_worker()
 t0 = time.time()
 r = mod.run_case(case)
-r.pop("distinct", None) if len(json.dumps(r.get("distinct", []))) > 2000 else None
-print(json.dumps(r, indent=1, default=repr)[:6000])
+if "--full" in sys.argv:
+    print(json.dumps(r, indent=1, default=repr)[:20000])
+else:
+    print("hooks", r.get("hooks"), "extra", r.get("extra"), "inconclusive", r.get("inconclusive"), "distinct", len(r.get("distinct", [])), "evaluations", r.get("evaluations"))
+    for v in r.get("violations", [])[:8]:
+        print("VIO", v["sig"], "|", str(v["what"])[:400])
+        if "--wit" in sys.argv:
+            print(json.dumps(v["witness"], default=repr)[:3000])
 print("wall", round(time.time() - t0, 2))
